@@ -30,26 +30,38 @@ Notation n1 := (Z.of_nat (length (pre ++ r1))).
 Notation n2 := (Z.of_nat (length (pre ++ r2))).
 Notation h := (Z.of_nat (length pre)).
 
-Lemma lex_soydoc_det l res : lex_soydoc inp1 n1 base l = Ok res -> l_pos (snd res) + M <= h ->
+Lemma lex_soydoc_det l res : lex_soydoc inp1 n1 base l = Ok res -> l_pos (snd res)+ m_soydoc <= h ->
   lex_soydoc inp2 n2 base l = Ok res.
 Proof.
   intros H Hb. unfold lex_soydoc in *. pose proof (h_le1 pre r1); pose proof (h_le2 pre r2).
   destruct (emit inp1 n1 base itemSoyDocStart l) as [l1| | | | |] eqn:E; cbn [bind] in H; try discriminate.
   pose proof (emit_facts _ _ _ _ _ E) as He. pose proof (soydoc_loop_mono ul ud pre r1 r2 base _ _ _ _ _ _ H) as Hm.
-  unfold emit_fact, pmono, M in *.
+  unfold emit_fact, pmono, M, m_soydoc in *.
   rewrite <- (emit_agree pre r1 r2 base itemSoyDocStart l) by lia. rewrite E. cbn [bind].
   apply (soydoc_loop_det ul ud pre r1 r2 base _ _ _ _ _ H Hb). unfold soydoc_fuel. lia.
 Qed.
 
+(* the look-ahead of each state function *)
+Definition margin (st : lstate) : Z :=
+  match st with
+  | LText => m_text | LLeftDelim => m_ldelim | LRightDelim => m_rdelim | LRightDelimEnd => m_rdelim_end
+  | LBeginTag => m_begin_tag | LInsideTag => m_inside | LSoyDoc => m_soydoc | LLineComment => m_linec
+  | LBlockComment => m_blockc | LString _ => m_string | LIdent => m_ident | LHeaderParam => m_header
+  | LCss => m_css | LLiteral => m_literal | LNumber => m_number | LDone => 0
+  end.
+Lemma margin_le_M st : 0 <= margin st <= M.
+Proof. destruct st; vm_compute; split; discriminate. Qed.
+
 Definition good (st : lstate) (l : lx) : Prop :=
   l_pos l + M <= h /\ st <> LDone /\ l_start l <= l_pos l.
 
-Theorem step_det st l res :
+(* one step, with the margin of the state function that is run *)
+Theorem step_det_m st l res :
   l_start l <= l_pos l ->
-  step ul ud inp1 n1 base st l = Ok res -> l_pos (snd res) + M <= h -> fst res <> LDone ->
+  step ul ud inp1 n1 base st l = Ok res -> l_pos (snd res) + margin st <= h -> fst res <> LDone ->
   step ul ud inp2 n2 base st l = Ok res.
 Proof.
-  intros Hs H Hb Hl. destruct st; cbn [step] in *; try congruence.
+  intros Hs H Hb Hl. destruct st; cbn [step margin] in *; try congruence.
   - apply (lex_text_det ul ud pre r1 r2 base); assumption.
   - apply (lex_left_delim_det ul ud pre r1 r2 base); assumption.
   - apply (lex_right_delim_det ul ud pre r1 r2 base); assumption.
@@ -68,6 +80,12 @@ Proof.
   all: try (inversion H; subst; cbn in Hl; congruence).
 Qed.
 
+Theorem step_det st l res :
+  l_start l <= l_pos l ->
+  step ul ud inp1 n1 base st l = Ok res -> l_pos (snd res) + M <= h -> fst res <> LDone ->
+  step ul ud inp2 n2 base st l = Ok res.
+Proof. intros Hs H Hb Hl. apply step_det_m; try assumption. pose proof (margin_le_M st). lia. Qed.
+
 (* k steps of the machine (the definition of Proofs/LexTokens.v) *)
 Fixpoint psteps (inp : bstr) (k : nat) (st : lstate) (l : lx) : outcome (lstate * lx) :=
   match k with
@@ -75,17 +93,37 @@ Fixpoint psteps (inp : bstr) (k : nat) (st : lstate) (l : lx) : outcome (lstate 
   | S k' => '(st', l') <- step ul ud inp (Z.of_nat (length inp)) base st l ;; psteps inp k' st' l'
   end.
 
+(* k steps, per-state margins: every configuration on the way is live with start <= pos, and every step ends
+   [margin] of the state function it ran before the end of the common prefix *)
+Theorem steps_det_m : forall k st l st' l',
+  psteps inp1 k st l = Ok (st', l') ->
+  (forall j, (j <= k)%nat -> forall stj lj, psteps inp1 j st l = Ok (stj, lj) -> stj <> LDone /\ l_start lj <= l_pos lj) ->
+  (forall j, (j < k)%nat -> forall stj lj stn ln, psteps inp1 j st l = Ok (stj, lj) -> psteps inp1 (S j) st l = Ok (stn, ln) ->
+     l_pos ln + margin stj <= h) ->
+  psteps inp2 k st l = Ok (st', l').
+Proof.
+  induction k as [|k IH]; intros st l st' l' H Hg Hm; [exact H|].
+  cbn [psteps] in H |- *.
+  destruct (step ul ud inp1 n1 base st l) as [[st1 l1]| | | | |] eqn:E; cbn [bind] in H; try discriminate.
+  destruct (Hg 0%nat ltac:(lia) st l eq_refl) as (G1 & G2).
+  assert (E1 : psteps inp1 1 st l = Ok (st1, l1)) by (cbn [psteps]; rewrite E; reflexivity).
+  destruct (Hg 1%nat ltac:(lia) st1 l1 E1) as (K1 & K2).
+  pose proof (Hm 0%nat ltac:(lia) st l st1 l1 eq_refl E1) as K0.
+  rewrite (step_det_m st l (st1, l1) G2 E K0 K1). cbn [bind].
+  apply IH; [exact H| |].
+  - intros j Hj stj lj Hs. apply (Hg (S j) ltac:(lia) stj lj). cbn [psteps]. rewrite E. exact Hs.
+  - intros j Hj stj lj stn ln Hs Hn. apply (Hm (S j) ltac:(lia) stj lj stn ln).
+    + cbn [psteps]. rewrite E. exact Hs.
+    + cbn [psteps]. rewrite E. exact Hn.
+Qed.
+
 Theorem steps_det : forall k st l st' l',
   psteps inp1 k st l = Ok (st', l') ->
   (forall j, (j <= k)%nat -> forall stj lj, psteps inp1 j st l = Ok (stj, lj) -> good stj lj) ->
   psteps inp2 k st l = Ok (st', l').
 Proof.
-  induction k as [|k IH]; intros st l st' l' H Hg; cbn [psteps] in *; [exact H|].
-  destruct (step ul ud inp1 n1 base st l) as [[st1 l1]| | | | |] eqn:E; cbn [bind] in H; try discriminate.
-  destruct (Hg 0%nat ltac:(lia) st l eq_refl) as (G0 & G1 & G2).
-  destruct (Hg 1%nat ltac:(lia) st1 l1) as (K0 & K1 & K2); [cbn [psteps]; rewrite E; reflexivity|].
-  rewrite (step_det st l (st1, l1) G2 E K0 K1). cbn [bind].
-  apply IH; [exact H|]. intros j Hj stj lj Hs.
-  apply (Hg (S j) ltac:(lia) stj lj). cbn [psteps]. rewrite E. exact Hs.
+  intros k st l st' l' H Hg. apply steps_det_m; [exact H| |].
+  - intros j Hj stj lj Hs. destruct (Hg j Hj stj lj Hs) as (_ & G1 & G2). auto.
+  - intros j Hj stj lj stn ln Hs Hn. destruct (Hg (S j) ltac:(lia) stn ln Hn) as (G0 & _). pose proof (margin_le_M stj). lia.
 Qed.
 End Main.
